@@ -57,6 +57,13 @@ def run(check):
     kept = kept_ticker_programs()
     more += [(p, log, 1) for p, (log, outcome) in zip(kept, usimrun.run_many(kept, 1))]
     check.programs += len(kept)
+    # queue and channel traffic with receivers arriving while a wake-up is in flight (the kernel's own assertions
+    # about streams - "report this as a usim bug" - must never fire)
+    from props import c10
+    from props import c11
+    for label, consts in (c10.CONFIGS[0], c11.CONFIGS[0]):
+        ws = check.witnesses('streams_' + label, consts, emit='EmitOps', invariants=['NoFault', 'RunLive'], coverage=False, limit=8000)
+        more += [(p, t, consts['NRoots']) for p, t in usimrun.replay(check, ws, consts, limit=8000)]
     runs = scopedom.run(check, OBS, LABELS[check.tier], conform=True, more=more)
     # the binding itself is tested: corrupted copies of recorded traces must be rejected by the operational spec
     import selftest
